@@ -32,9 +32,15 @@ def table():
             m["default_must_getter"] = dmg
         if meta:
             m.update({"pkg": "mypkg", "container_type": "MyC", "container_constructor": "Build"})
-        cfg = {"meta": m, "services": {"s": s, "other": {"constructor": "fx.NewC", "getter": "Other", "scope": "non_shared"}, "bad": {"constructor": "fx.NewFail", "getter": "Bad"}}}
+        cfg = {"meta": m, "services": {"s": s, "other": {"constructor": "fx.NewC", "getter": "Other", "scope": "non_shared"}, "bad": {"constructor": "fx.NewFail", "getter": "Bad"},
+                                       # a contextual service: the InContext getters must use THEIR context, the plain ones none
+                                       "cx": {"constructor": "fx.NewA", "arguments": ["ctx"], "getter": "Cx", "must_getter": True, "scope": "contextual"}}}
         out.append((cfg, getter, rty, mg, dmg, meta))
     return out
+
+
+CX_OPS = [["getctx", "c1", "cx"], ["call", "CxInContext", "c1"], ["call", "MustCxInContext", "c1"], ["newctx", "c2"], ["call", "MustCxInContext", "c2"],
+          ["call", "CxInContext", "c2"], ["getctx", "c2", "cx"], ["call", "Cx"], ["call", "MustCx"], ["call", "MustCxInContext", "c1"]]
 
 
 def expected_methods(cfg):
@@ -82,8 +88,9 @@ def run(ctx):
         ops = [["methods"], ["newctx", "c1"]]
         for name, s in cfg["services"].items():
             g = s.get("getter")
-            if g:
+            if g and name != "cx":
                 ops += [["get", name], ["call", g], ["call", g + "InContext", "c1"], ["call", "Must" + g], ["call", "Must" + g + "InContext", "c1"]]
+        ops += CX_OPS
         items.append((cfg, ops))
     out, err = behave.run_batch(ctx, items, tag="c13")
     if err:
@@ -118,11 +125,25 @@ def run(ctx):
                 violations.append({"sig": "method-signature", "what": "%s has signature %r, expected %r" % (n, got[n], sig), "files": rec["files"]})
         dist["must_methods"] += sum(1 for n in want if n.startswith("Must"))
         nontriv.add(json.dumps(sorted((n, str(s)) for n, s in want.items() if s)))
+        # the whole script against the runtime model (object identity up to consistent renaming), from op 1 on
+        if rec.get("model") is not None:
+            for x in behave.compare_script(rec["impl"][1:], rec["model"][1:])[:3]:
+                if len(corr_fail) < 10:
+                    corr_fail.append({"op": "rt:call", "script_op": ops[x[0] + 1] if isinstance(x[0], int) else x[0], "impl": x[1], "model": x[2], "files": rec["files"]})
+        # contextual service: one instance per context for the InContext forms, a fresh one for every context-free call
+        cxr = rec["impl"][len(ops) - len(CX_OPS):]
+        ser = [r.get("ok", {}).get("serial") if isinstance(r.get("ok"), dict) else None for r in cxr]
+        if any("ok" not in r for k, r in enumerate(cxr) if k != 3):
+            violations.append({"sig": "getter-fails", "what": "getter calls on the contextual service fail: %r" % (cxr,), "files": rec["files"]})
+        else:
+            c1, c2, free = {ser[0], ser[1], ser[2], ser[9]}, {ser[4], ser[5], ser[6]}, [ser[7], ser[8]]
+            if len(c1) != 1 or len(c2) != 1 or c1 == c2 or free[0] == free[1] or set(free) & (c1 | c2):
+                violations.append({"sig": "getter-context", "what": "contextual service through getters: context c1 saw instances %r, c2 %r, context-free calls %r — expected one per context, distinct, and fresh ones without context" % (sorted(c1), sorted(c2), free), "files": rec["files"]})
         # calls
         i = 2
         for name, s in cfg["services"].items():
             g = s.get("getter")
-            if not g:
+            if not g or name == "cx":
                 continue
             rget, rg, rgc, rm, rmc = rec["impl"][i:i + 5]
             i += 5
